@@ -76,6 +76,37 @@ pub const WORKER_EXIT: u32 = 31;
 /// A buffer-pool buffer changed hands (a = buffer id, b = new owner code).
 pub const POOL_BUF: u32 = 40;
 
+/// Owner codes of [`POOL_BUF`] events (the `b` argument).
+pub mod pool {
+    /// The buffer left the slot table (`Shared::take` returned it).
+    pub const TAKE: i64 = 1;
+    /// The buffer went back into its slot and to the ring tail / free queue.
+    pub const RESET: i64 = 2;
+    /// The buffer was deallocated by its holder (pool already released or gone).
+    pub const DEALLOC: i64 = 3;
+    /// The buffer was deallocated by `BufferPoolRoot::release`.
+    pub const RELEASE_DEALLOC: i64 = 4;
+    /// A multishot completion selected the buffer: a guard for it was queued.
+    pub const GUARD: i64 = 5;
+    /// The guard was leaked: the completion was handed to the caller.
+    pub const GUARD_LEAK: i64 = 6;
+    /// Fallback pool: the id was popped from the free queue.
+    pub const POP: i64 = 7;
+    /// Fallback pool: the free queue was empty (a = 0).
+    pub const POP_EMPTY: i64 = 8;
+    /// A queued guard is dropped (the buffer is about to be reset).
+    pub const GUARD_DROP: i64 = 9;
+    /// An io_uring buffer ring was created (a = number of entries).
+    pub const NEW_RING: i64 = 10;
+    /// A fallback pool was created (a = number of buffers).
+    pub const NEW_FALLBACK: i64 = 11;
+    /// `BufferPoolRoot::release` succeeded (a = 0).
+    pub const RELEASED: i64 = 12;
+    /// io_uring ring: an entry was written
+    /// (a = buffer id | ring index << 16 | tail before the write << 32).
+    pub const RING_ADD: i64 = 13;
+}
+
 static LOG: Mutex<Option<Vec<Event>>> = Mutex::new(None);
 static NEXT_THREAD: AtomicU64 = AtomicU64::new(1);
 
